@@ -363,9 +363,17 @@ def plan(tier, seed):
     else:
         pairs = []
         for fk in by.values():
-            reps = {max(fk, key=lambda k: (k.n, k.name)), min(fk, key=lambda k: (k.n, k.name))}
-            reps |= {k for k in fk if k.name.endswith("1")}
-            pairs += [(a, b) for a in fk for b in sorted(reps, key=lambda k: k.name)]
+            # per decoder family: longest x shortest kinds in both orders, and every kind with a body followed by itself
+            # (the first version paired every kind with every representative: 399 harnesses, > 2 h)
+            big = max(fk, key=lambda k: (k.n, k.name))
+            small = min(fk, key=lambda k: (k.n, k.name))
+            cand = [(big, big), (small, big), (big, small), (small, small)]
+            cand += [(k, k) for k in fk if k.name[-1] in "12"]
+            seen = set()
+            for a, b in cand:
+                if (a.name, b.name) not in seen:
+                    seen.add((a.name, b.name))
+                    pairs.append((a, b))
     gen_two(g, pairs, 6 if tier == "quick" else 8)
     if tier == "calib":
         gen_bad(g, ks, 1)
